@@ -62,7 +62,7 @@ GROUP_PREFIX = {"sv": "Sv", "mx": "Mx", "tn": "Tn", "dl": "Dl"}
 MC_QUICK = [("dv", 3, [0, 1, 2], 6, 2), ("uv", 3, [0, 1, 2], 6, 2), ("iv", 3, [0, 1, 2], 6, 2), ("sv", 2, [0, 1, 2], 6, 2),
             ("dl", 2, [0, 1, 2], 6, 2), ("mx", 2, [0, 1, 2], 4, 4), ("tn", 2, [0, 1], 4, 4)]
 MC_THOROUGH = [("dv", 4, [0, 1, 2], 8, 3), ("uv", 4, [0, 1, 2], 8, 3), ("iv", 4, [0, 1, 2], 8, 3), ("sv", 3, [0, 1, 2], 6, 3),
-               ("dl", 3, [0, 1, 2], 6, 3), ("mx", 2, [0, 1, 2], 6, 8), ("tn", 2, [0, 1, 2], 5, 8)]
+               ("dl", 3, [0, 1, 2], 5, 3), ("mx", 2, [0, 1, 2], 6, 8), ("tn", 2, [0, 1, 2], 4, 8)]
 INVARIANTS = ["Shape", "TypeOK", "DeadIsEmpty", "KindsOff", "DepthBound"]
 LAWS = ["GuardLaw", "FrameLaw", "OorLaw", "CopyLaw", "GrowthLaw", "ShrinkLaw"]
 
